@@ -201,18 +201,24 @@ theorem case_struct (lfs : List Val)
   | basic i => have := WT_basic_isScal _ _ hl; simp [isScal] at this
   | _ => simp [WT, Node.withPtr] at hl
 
-theorem deqMapVals_ptrkey (env : DeqEnv) (mk mv : Node) (π : String) (lks lvs rks rvs : List Val)
-    (hk : (mk.ptr && !env.ident) = true) (hlen : lks.length = lvs.length) :
-    deqMapVals env mk mv π lks lvs rks rvs = if lks.isEmpty then .cont else .retFalse := by
-  cases lvs with
-  | nil => cases lks <;> simp_all [deqMapVals]
-  | cons v vs => cases lks <;> simp_all [deqMapVals]
+/-- What the specification says about the key loop of a map: nothing definite for pointer-typed keys of
+independent objects (unless there is no key at all), the per-key verdicts otherwise. -/
+def mapSpec (opts : Option DeqOpts) (ident : Bool) (mk mv : Node) (π : String) (lks lvs rks rvs : List Val) : Tri :=
+  if (mk.ptr && !ident) = true then (if lks.isEmpty then .must else .either)
+  else eqMapVals (specEnv opts ident) mv π lks lvs rks rvs
+
+theorem accR_either_seq (x rest : DeqR) (h1 : x ≠ .panic) (h2 : rest ≠ .panic) :
+    accR .either (x.andThen fun _ => rest) = true := by
+  cases x
+  · cases rest <;> first | rfl | exact absurd rfl h2
+  · rfl
+  · exact absurd rfl h1
 
 theorem case_map (lks lvs : List Val)
-    (ih : ∀ (rks rvs : List Val) (mk mv : Node) (π : String), (mk.ptr && !ident) = false →
+    (ih : ∀ (rks rvs : List Val) (mk mv : Node) (π : String),
       lks.length = lvs.length → mv.isBytes = false → mv.name.length = 0 → EmitOK mv = true → PathNamesOK mv = true →
       WTall mv lvs = true → WTall mv rvs = true →
-      accR (eqMapVals (specEnv opts ident) mv π lks lvs rks rvs)
+      accR (mapSpec opts ident mk mv π lks lvs rks rvs)
         (deqMapVals (fixedEnv opts ident) mk mv π lks lvs rks rvs) = true)
     (nl : Bool) (r : Val) (n : Node) (ps wrap : Bool) (π : String) (hw : wrap = ps)
     (hemit : EmitOK n = true) (hnames : PathNamesOK n = true)
@@ -236,13 +242,7 @@ theorem case_map (lks lvs : List Val)
       by_cases hne : (lks.length != rks.length) = true
       · simp [hne, accR]
       · simp only [hne, if_false, Bool.false_eq_true]
-        by_cases hk : (mk.ptr && !ident) = true
-        · rw [deqMapVals_ptrkey _ _ _ _ _ _ _ _ hk hllen]
-          simp only [hk, if_true]
-          cases lks <;> simp [accR]
-        · have hk' : (mk.ptr && !ident) = false := by simpa using hk
-          simp only [hk', if_false, Bool.false_eq_true]
-          exact ih rks rvs mk mv π hk' hllen hemit.2 hnames.1 hemit.1.2 hnames.2 hlv hrv
+        exact ih rks rvs mk mv π hllen hemit.2 hnames.1 hemit.1.2 hnames.2 hlv hrv
   | basic i => have := WT_basic_isScal _ _ hl; simp [isScal] at this
   | _ => simp [WT, Node.withPtr] at hl
 
@@ -339,7 +339,7 @@ theorem deqN_ok : ∀ (l r : Val) (n : Node) (ps d0 : Bool) (pp π : String),
     rw [← withPtr_false_of_not_ptr n hp] at hl hr
     exact deqN_of_deqV opts ident _ n ps d0 pp π _ r hπ hlen hp
       (case_map opts ident lks lvs
-        (fun rks rvs mk mv π h1 h2 h3 h4 h5 h6 h7 h8 => deqMapVals_ok lvs lks rks rvs mk mv π h1 h2 h3 h4 h5 h6 h7 h8)
+        (fun rks rvs mk mv π h2 h3 h4 h5 h6 h7 h8 => deqMapVals_ok lvs lks rks rvs mk mv π h2 h3 h4 h5 h6 h7 h8)
         nl r n ps ps π rfl hemit hnames hl hr)
   | .slice nl les c, r, n, ps, d0, pp, π, hπ, hlen, hnb, hemit, hnames, hl, hr => by
     have hp : n.ptr = false := WT_not_ptr n _ hl (by simp) (by simp)
@@ -387,7 +387,7 @@ theorem deqV_ok : ∀ (l r : Val) (n : Node) (ps wrap : Bool) (π : String),
       r n ps wrap π hw hemit hnames hl hr
   | .map nl lks lvs, r, n, ps, wrap, π, hw, hnb, hemit, hnames, hl, hr =>
     case_map opts ident lks lvs
-      (fun rks rvs mk mv π h1 h2 h3 h4 h5 h6 h7 h8 => deqMapVals_ok lvs lks rks rvs mk mv π h1 h2 h3 h4 h5 h6 h7 h8)
+      (fun rks rvs mk mv π h2 h3 h4 h5 h6 h7 h8 => deqMapVals_ok lvs lks rks rvs mk mv π h2 h3 h4 h5 h6 h7 h8)
       nl r n ps wrap π hw hemit hnames hl hr
   | .slice nl les c, r, n, ps, wrap, π, hw, hnb, hemit, hnames, hl, hr =>
     case_slice opts ident les
@@ -431,31 +431,57 @@ theorem deqFields_ok : ∀ (ls rs : List Val) (chld : List Node) (π : String),
         exact accR_seq _ _ _ _ h1' h2
 
 theorem deqMapVals_ok : ∀ (lvs lks rks rvs : List Val) (mk mv : Node) (π : String),
-    (mk.ptr && !ident) = false → lks.length = lvs.length → mv.isBytes = false → mv.name.length = 0 →
+    lks.length = lvs.length → mv.isBytes = false → mv.name.length = 0 →
     EmitOK mv = true → PathNamesOK mv = true → WTall mv lvs = true → WTall mv rvs = true →
-    accR (eqMapVals (specEnv opts ident) mv π lks lvs rks rvs)
+    accR (mapSpec opts ident mk mv π lks lvs rks rvs)
       (deqMapVals (fixedEnv opts ident) mk mv π lks lvs rks rvs) = true
-  | [], lks, rks, rvs, mk, mv, π, hk, hlen, hnb, hname, hemit, hnames, hl, hr => by
-    simp [eqMapVals, deqMapVals, accR]
-  | lv :: lvs, lks, rks, rvs, mk, mv, π, hk, hlen, hnb, hname, hemit, hnames, hl, hr => by
+  | [], lks, rks, rvs, mk, mv, π, hlen, hnb, hname, hemit, hnames, hl, hr => by
+    cases lks with
+    | nil => unfold mapSpec; split <;> simp [eqMapVals, deqMapVals, accR]
+    | cons _ _ => simp at hlen
+  | lv :: lvs, lks, rks, rvs, mk, mv, π, hlen, hnb, hname, hemit, hnames, hl, hr => by
     cases lks with
     | nil => simp at hlen
     | cons lk lks' =>
       simp only [WTall, Bool.and_eq_true] at hl
-      have hk' : (mk.ptr && !(fixedEnv opts ident).ident) = false := hk
-      simp only [eqMapVals, deqMapVals, hk', Bool.false_eq_true, if_false]
-      cases hlk : lookupKey rks rvs lk with
-      | none => simp [accR]
-      | some rv =>
+      have h2 := deqMapVals_ok lvs lks' rks rvs mk mv π (by simpa using hlen) hnb hname hemit hnames hl.2 hr
+      have step : ∀ rv, lookupKey rks rvs lk = some rv →
+          accR (eqS (specEnv opts ident) mv π lv rv) (deqN (fixedEnv opts ident) mv false false π lv rv) = true := by
+        intro rv hlk
         have hrv := lookupKey_WT mv rks rvs lk rv hr hlk
         have h1 := deqN_ok lv rv mv false false π π (deqPath_elem π mv hname) (fun h => by cases h) (fun _ => hnb)
           hemit hnames hl.1 hrv
-        have h2 := deqMapVals_ok lvs lks' rks rvs mk mv π hk (by simpa using hlen) hnb hname hemit hnames hl.2 hr
-        simp only [look, Bool.false_and, Bool.false_eq_true, if_false] at h1
-        have := accR_seq _ _ _ _ h1 h2
-        simp only []
-        generalize deqN (fixedEnv opts ident) mv false false π lv rv = x at this ⊢
-        cases x <;> exact this
+        simpa only [look, Bool.false_and, Bool.false_eq_true, if_false] using h1
+      unfold mapSpec at h2 ⊢
+      by_cases hk : (mk.ptr && !ident) = true
+      · have hk' : (mk.ptr && !(fixedEnv opts ident).ident) = true := hk
+        simp only [hk, if_true, List.isEmpty_cons, Bool.false_eq_true, if_false] at h2 ⊢
+        have hrest : deqMapVals (fixedEnv opts ident) mk mv π lks' lvs rks rvs ≠ .panic := accR_ne_panic _ _ h2
+        simp only [deqMapVals, hk', Bool.true_and]
+        by_cases hnil : lk.isNilPtr = true
+        · simp only [hnil, Bool.not_true, Bool.false_eq_true, if_false]
+          cases hlk : lookupKey rks rvs lk with
+          | none => rfl
+          | some rv =>
+            have h1 := accR_ne_panic _ _ (step rv hlk)
+            have := accR_either_seq _ _ h1 hrest
+            simp only []
+            generalize deqN (fixedEnv opts ident) mv false false π lv rv = x at this ⊢
+            cases x <;> exact this
+        · have hnil' : lk.isNilPtr = false := by simpa using hnil
+          simp only [hnil', Bool.not_false, if_true]
+          rfl
+      · have hk1 : (mk.ptr && !ident) = false := by simpa using hk
+        have hk' : (mk.ptr && !(fixedEnv opts ident).ident) = false := hk1
+        simp only [hk1, Bool.false_eq_true, if_false] at h2 ⊢
+        simp only [eqMapVals, deqMapVals, hk', Bool.false_and, Bool.false_eq_true, if_false]
+        cases hlk : lookupKey rks rvs lk with
+        | none => simp [accR]
+        | some rv =>
+          have := accR_seq _ _ _ _ (step rv hlk) h2
+          simp only []
+          generalize deqN (fixedEnv opts ident) mv false false π lv rv = x at this ⊢
+          cases x <;> exact this
 
 theorem deqElems_ok : ∀ (ls rs : List Val) (e : Node) (π : String),
     ls.length = rs.length → e.isBytes = false → e.name.length = 0 → EmitOK e = true → PathNamesOK e = true →
